@@ -23,7 +23,7 @@ import traceback
 from .. import bigframe, repo
 
 
-class Divergence(Exception):
+class Divergence(BaseException):
     pass
 
 
@@ -42,6 +42,7 @@ class Scheduler:
         self.done = threading.Semaphore(0)
         self.tls = threading.local()
         self.events = 0
+        self.blocked_streak = 0
         self.phases = phases  # optional: per-thread one-element lists holding the body's current phase label
 
     # -- choice -----------------------------------------------------------------------------
@@ -62,6 +63,7 @@ class Scheduler:
 
     # -- called from the threads ------------------------------------------------------------
     def point(self, tid, where):
+        self.blocked_streak = 0
         self.events += 1
         if self.events > self.horizon:
             raise Divergence("horizon exceeded")
@@ -73,6 +75,21 @@ class Scheduler:
             self.current = nxt
             self.baton[nxt].release()
             self.baton[tid].acquire()
+
+    def blocked(self, tid, where):
+        """The running thread cannot go on (a library lock is held by a thread that was switched away): hand the
+        baton to another unfinished thread -- a forced switch, not a preemption -- and retry when it comes back."""
+        self.events += 1
+        if self.events > self.horizon:
+            raise Divergence("horizon exceeded")
+        self.blocked_streak += 1
+        others = self._others(tid)
+        if not others or self.blocked_streak > 4 * self.n + 4:
+            raise Divergence(f"deadlock: thread {tid} waits for a library lock at {where} and no other thread can release it")
+        nxt = self._choose(others, False, tid, ("blocked-on-lock", where))
+        self.current = nxt
+        self.baton[nxt].release()
+        self.baton[tid].acquire()
 
     def thread_start(self, tid):
         self.tls.tid = tid
@@ -91,6 +108,107 @@ class Scheduler:
             nxt = others[0]
         self.current = nxt
         self.baton[nxt].release()
+
+# ---- cooperative stand-ins for the library's own locks ---------------------------------------------------------
+# A real lock held by a thread that the scheduler has switched away would block the running thread for good (the
+# holder only runs when it gets the baton).  Locks the library creates are therefore replaced by these: a failed
+# acquisition inside a scheduled thread yields to the scheduler instead of blocking.
+_ACTIVE = [None]          # the Scheduler of the execution in progress, if any
+
+
+class CoopLock:
+    reentrant = False
+
+    def __init__(self):
+        import _thread
+        self._lock = _thread.allocate_lock()
+        self._owner = None
+        self._count = 0
+
+    def _me(self):
+        return threading.get_ident()
+
+    def acquire(self, blocking=True, timeout=-1):
+        me = self._me()
+        if self.reentrant and self._owner == me:
+            self._count += 1
+            return True
+        while True:
+            if self._lock.acquire(False):
+                self._owner, self._count = me, 1
+                return True
+            if not blocking:
+                return False
+            sch = _ACTIVE[0]
+            tid = getattr(sch.tls, "tid", None) if sch is not None else None
+            if tid is None:                      # not a scheduled thread: block for real
+                ok = self._lock.acquire(True, timeout)
+                if ok:
+                    self._owner, self._count = me, 1
+                return ok
+            sch.blocked(tid, "lock")
+
+    def release(self):
+        if self.reentrant:
+            if self._owner != self._me():
+                raise RuntimeError("cannot release un-acquired lock")
+            self._count -= 1
+            if self._count:
+                return
+        self._owner = None
+        self._lock.release()
+
+    def locked(self):
+        return self._lock.locked()
+
+    def __enter__(self):
+        self.acquire()
+        return True
+
+    def __exit__(self, *a):
+        self.release()
+
+
+class CoopRLock(CoopLock):
+    reentrant = True
+
+
+class _ThreadingProxy:
+    """What a library module sees as ``threading``: Lock / RLock are the cooperative ones, everything else is the real module's."""
+
+    def __init__(self, real):
+        self._real = real
+
+    def __getattr__(self, name):
+        if name == "Lock":
+            return CoopLock
+        if name == "RLock":
+            return CoopRLock
+        return getattr(self._real, name)
+
+
+def interpose_library_locks():
+    """Replace every lock object held at module or class level of the library (and the ``threading`` module as the
+    library's modules see it, for locks made later) by cooperative ones.  Returns how many were replaced; on a tree
+    without locks this changes nothing."""
+    import _thread
+    from . import procstate
+    lock_types = (type(_thread.allocate_lock()), type(threading.RLock()))
+    n = 0
+    for mname, mod in procstate._mods():
+        for name, obj in list(vars(mod).items()):
+            if obj is threading:
+                setattr(mod, name, _ThreadingProxy(threading))
+            elif isinstance(obj, lock_types):
+                setattr(mod, name, CoopRLock() if isinstance(obj, lock_types[1]) else CoopLock())
+                n += 1
+            elif isinstance(obj, type) and getattr(obj, "__module__", None) == mname:
+                for k, v in list(vars(obj).items()):
+                    if isinstance(v, lock_types):
+                        setattr(obj, k, CoopRLock() if isinstance(v, lock_types[1]) else CoopLock())
+                        n += 1
+    return n
+
 
 def make_tracer(sched, tid, trace_dirs, opcode_codes, granularity="line", only_phase=None, line_codes=()):
     """sys.settrace tracer for one thread.  granularity "line": a switch point on every ``line``
@@ -172,6 +290,7 @@ def execute(bodies, prefix, opcode_code_objects=(), phases=None, granularity="li
     n = len(bodies)
     dirs = [os.path.join(repo.SRC, "celpy") + os.sep, os.path.join(repo.SRC, "xlate") + os.sep]
     sched = Scheduler(n, prefix, dirs, phases=phases)
+    _ACTIVE[0] = sched
     results = [None] * n
     threads = [threading.Thread(target=_thread_body, args=(sched, i, bodies[i], results, make_tracer(sched, i, dirs, opcode_code_objects, granularity, only_phase, line_codes)), daemon=True) for i in range(n)]
     for t in threads:
